@@ -473,6 +473,28 @@ def runSelRaceLine (r : Report) (sec : Nat) (l : Line) : Report :=
     | _, _, _ => r.mismatch sec l.idx "bad-op" (joinSp l.op)
   | _ => r.mismatch sec l.idx "bad-op" (joinSp l.op)
 
+/-- `pairsel <kindA> <workA> <kindB> <atB> <workB>` => `aout=… afin=… out=… [then=…]`: two calls through one interceptor; the
+model has no state between calls (`SrvInst.call` returns the closure unchanged; each call has its own `SelSt`), so A must
+be the timeout result of ITS expiry and B must be explained — and satisfy the outcome law — on its own. -/
+def runPairSelLine (r : Report) (sec : Nat) (l : Line) : Report :=
+  match l.op with
+  | ["pairsel", kindA, workA, kindB, atB, workB] =>
+    match parseKind kindA, parseWork workA with
+    | some (some kA), some wA =>
+      let aModel := outStr (mainTakesTimeout srvStep { work := wA } kA)
+      let aImpl := obsOf l "aout"
+      let r := r.addCover s!"pairsel-A-late-{(workA.splitOn ":").headD ""}-while-B-in-flight"
+      let r := if aModel ≠ aImpl then r.mismatch sec l.idx s!"aout={aModel}" s!"aout={aImpl}" else r
+      let r := if obsOf l "afin" ≠ "1" then r.mismatch sec l.idx "afin=1" (joinSp l.obs) else r
+      let r := match parseOutcome aImpl with
+        | some o => (Spec.checkSel wA (some kA) o).foldl (fun r e =>
+            r.violation sec l.idx s!"{e} [call A of two calls through one interceptor]: op=[{joinSp l.op}] impl=[{joinSp l.obs}]") r
+        | none => r.violation sec l.idx s!"wrapper did not return at the deadline while the work ignored it [call A of two calls through one interceptor]: op=[{joinSp l.op}] impl=[{joinSp l.obs}]"
+      let lB : Line := { l with obs := l.obs.filter (fun t => !(t.startsWith "aout=" || t.startsWith "afin=")) }
+      runSelLineOp r sec lB ["sel", "srv", kindB, atB, workB] "pairsel-B"
+    | _, _ => r.mismatch sec l.idx "bad-op" (joinSp l.op)
+  | _ => r.mismatch sec l.idx "bad-op" (joinSp l.op)
+
 def msInt (s : String) : Option Int := s.toInt?
 
 def dlClassT (parent d : Deadline) (tMs : Int) : String :=
@@ -885,6 +907,7 @@ def runSection (r : Report) (s : Section) : Report :=
         | none => r.mismatch s.idx l.idx "bad-cfg" (joinSp s.cfg))
     | some "sel" => runSelLine r s.idx l
     | some "selrace" => runSelRaceLine r s.idx l
+    | some "pairsel" => runPairSelLine r s.idx l
     | _ => r.mismatch s.idx l.idx "bad-op" (joinSp l.op)) r
 
 def driver (secs : List Section) : Report := secs.foldl runSection {}
